@@ -32,6 +32,7 @@ type action struct {
 	Problem    string  `json:"problem,omitempty"`     // problem type URN for err ("" → non-JSON body)
 	NoNonce    bool    `json:"no_nonce,omitempty"`    // reply carries no Replay-Nonce
 	RetryAfter string  `json:"retry_after,omitempty"` // header value ("" → absent)
+	RADateIn   int     `json:"ra_date_in,omitempty"`  // Retry-After as HTTP-date this many seconds after the reply (bubble runs)
 	Garbage    bool    `json:"garbage,omitempty"`     // ok status but undecodable body
 	Then       *action `json:"then,omitempty"`        // for hold: what to do when released
 }
@@ -123,6 +124,7 @@ type opPlan struct {
 	FinalizeStat string   // status in the finalize reply (valid | processing | ready | invalid)
 	Phase        string
 
+	onReply  func(e event) // harness hook, called after a reply of this op was written
 	held     chan struct{} // server → harness: a request of this op is being held
 	release  chan struct{} // harness → server
 	events   []event
@@ -439,6 +441,9 @@ func (s *fakeCA) reply(w http.ResponseWriter, r *http.Request, op *opPlan, class
 	if act.RetryAfter != "" {
 		h.Set("Retry-After", act.RetryAfter)
 	}
+	if act.RADateIn > 0 {
+		h.Set("Retry-After", time.Now().Add(time.Duration(act.RADateIn)*time.Second).UTC().Format(http.TimeFormat))
+	}
 	status := 200
 	var bodyOut []byte
 	marker := fmt.Sprintf("r%d", rseq)
@@ -494,10 +499,14 @@ func (s *fakeCA) reply(w http.ResponseWriter, r *http.Request, op *opPlan, class
 	if len(s.all) < 400 {
 		s.all = append(s.all, ev)
 	}
+	hook := op.onReply
 	s.mu.Unlock()
 	w.WriteHeader(status)
 	if r.Method != "HEAD" {
 		w.Write(bodyOut)
+	}
+	if hook != nil {
+		hook(ev)
 	}
 }
 
